@@ -13,7 +13,7 @@
    the model (this property is PARTIAL by nature).
 
    No proofs here.  The last part is the correspondence entry point run_case_C18. *)
-From SV Require Import Model.Common Model.Metrics.
+From SV Require Import Model.Common Model.Metrics Model.ShutdownBacklog.
 Local Open Scope Z_scope.
 
 (* ------------------------------------------------------------------------------------------ *)
@@ -300,6 +300,39 @@ Definition phase_of (z : Z) : cphase18 :=
 Definition opt_text (o : option Z) : bytes :=
   match o with Some z => dec_of_Z z | None => [105;110;102]%N (* inf *) end.
 
+(* kind 2 — backlog at the stop (Model/ShutdownBacklog.v).
+   zargs: d0 d1 (descriptor, ignored)  n (chunk files at the start)  w (window)  j (stop trigger, ignored)
+          k (largest number of select resolutions in favour of the send that is accepted)
+          r0 (chunks the consumer received before it saw the stop request)  a (chunks it received afterwards)
+          left (chunk files after the shutdown)  stopped (the feeder had stopped when Destroy returned)
+          loop (chunks the feeder's main loop took from the queue: recovered - queued_chunks{persistent}; not used
+          by the model, which prints its own)
+   Of the a chunks received after the consumer saw the stop request, w + 2 can have been sent before it (the window,
+   the chunk in the consumer's hand, the send in progress); the others are sends after the stop request:
+   need = max 0 (a - (w + 2)).  The model replays  r0 + a - need  chunks before the stop request and  need  after it.
+   output: ok:class=<bounded|unbounded>;need=<selects resolved for the send>;fwd=<forwarded after the stop>;
+           recv=<received>;left=<chunks left to the cleanup>;loop=<chunks the main loop took from the queue>;
+           stopped=<0|1>     or  reject  (the model has no such run) *)
+Definition run_backlog_case (c : case) : bytes :=
+  let z := zarg c in
+  let n := z 2%nat in let w := z 3%nat in let k := z 5%nat in let r0 := z 6%nat in let a := z 7%nat in
+  if (n <? 0) || (w <? 0) || (k <? 0) || (r0 <? 0) || (a <? 0) then bad_case_output else
+  let need := Z.max 0 (a - (w + 2)) in
+  let cfg := FCFG (Z.to_nat w) (Z.to_nat n) false in
+  match replay_backlog cfg (Z.to_nat n) (Z.to_nat (r0 + a - need)) (Z.to_nat need) with
+  | None => [114;101;106;101;99;116]%N   (* reject *)
+  | Some (ch, fwd, taken, saved, loops, st) =>
+    let class := if Z.of_nat ch <=? k then [98;111;117;110;100;101;100]%N            (* bounded *)
+                 else [117;110;98;111;117;110;100;101;100]%N in                      (* unbounded *)
+    str_ok ++ colon :: [99;108;97;115;115;61]%N ++ class
+    ++ 59%N :: [110;101;101;100;61]%N ++ dec_of_Z (Z.of_nat ch)
+    ++ 59%N :: [102;119;100;61]%N ++ dec_of_Z (Z.of_nat fwd)
+    ++ 59%N :: [114;101;99;118;61]%N ++ dec_of_Z (Z.of_nat taken)
+    ++ 59%N :: [108;101;102;116;61]%N ++ dec_of_Z (Z.of_nat saved)
+    ++ 59%N :: [108;111;111;112;61]%N ++ dec_of_Z (Z.of_nat loops)
+    ++ 59%N :: [115;116;111;112;112;101;100;61]%N ++ dec_of_Z (if st then 1 else 0)
+  end.
+
 (* zargs: d0 d1 (descriptor, ignored)  phase  t_in t_ch t_bs t_conn t_send t_ack t_ackstop t_retry
           n_conn n_flush n_pipe n_out n_left n_win has_dir worker_live late_abort
    output: ok:bs=<bound of this scenario>;b=<B>;cl=<bound of the client alone>;class=<instant|deadline|never> *)
@@ -321,5 +354,6 @@ Definition run_case_C18 (c : case) : bytes :=
                  end in
     str_ok ++ colon :: [98;115;61]%N ++ opt_text bs ++ 59%N :: [98;61]%N ++ dec_of_Z (B p sh)
     ++ 59%N :: [99;108;61]%N ++ opt_text cl ++ 59%N :: [99;108;97;115;115;61]%N ++ class
+  | 2%N => run_backlog_case c
   | _ => bad_case_output
   end.
